@@ -12,6 +12,9 @@ property says must be persisted:
 time in a build directory (setup, --wipe), never again on reconfigure.  For the top project they give the starting value of
 a built-in or project option; for a subproject a built-in named there becomes a per-subproject override (which -U drops
 like any other, and only --wipe brings back).
+A second subproject `late` is only reached while the top-level option `use_late` is true: it is configured for the first time
+by whichever setup / reconfigure / wipe first sees use_late=true, and at that moment everything the user ever gave for it on a
+command line (recorded `-Dlate:opt=v`, given while the subproject was not in use yet) is "the last value the user gave".
 Option-file edits are picked up by the next command that re-reads them and saves: `configure` with flags,
 `setup --reconfigure`, `setup --wipe` (mconf reloads changed option files; observed and documented in mconf.py).
 Values are kept as the strings a user types; `norm()` gives the comparison form of a probed real value.
@@ -104,7 +107,8 @@ Files = T.Dict[str, Spec]
 class State:
     def __init__(self) -> None:
         self.configured = False
-        self.applied: T.Dict[str, Files] = {'': {}, 'sub': {}}
+        self.applied: T.Dict[str, Files] = {'': {}, 'sub': {}, 'late': {}}
+        self.late = False              # subproject `late` has been configured in this build directory
         self.created_default: T.Dict[str, str] = {}
         self.user: T.Dict[str, str] = {}
         self.record: T.Dict[str, str] = {}
@@ -117,8 +121,11 @@ def key(sub: str, name: str) -> str:
 
 
 class Model:
-    def __init__(self, top: Files, sub: Files, dopts: T.Optional[T.Dict[str, T.Dict[str, str]]] = None) -> None:
+    def __init__(self, top: Files, sub: Files, dopts: T.Optional[T.Dict[str, T.Dict[str, str]]] = None,
+                 late: T.Optional[Files] = None) -> None:
         self.files: T.Dict[str, Files] = {'': dict(top), 'sub': dict(sub)}
+        if late is not None:
+            self.files['late'] = dict(late)     # never edited
         # default_options: of the two project() calls as currently written in the build files
         self.dopts: T.Dict[str, T.Dict[str, str]] = dopts if dopts is not None else {'': {}, 'sub': {}}
         self.st = State()
@@ -134,7 +141,28 @@ class Model:
         if name in BUILTINS:
             b = BUILTINS[name]
             return Spec(name, b['kind'], b['default'], b.get('choices'), b.get('min'), b.get('max'))
+        if sub == 'late':
+            return self.files.get('late', {}).get(name)     # also while still pending (static declarations)
         return applied.get(sub, {}).get(name)
+
+    def _maybe_init_late(self, st: State, cmdline: T.Mapping[str, str]) -> None:
+        """The command interprets the build files: if use_late is true now and `late` was never configured here, it is now."""
+        if st.late or 'late' not in self.files or 'use_late' not in st.applied['']:
+            return
+        probe = Model.__new__(Model)
+        probe.files, probe.st = self.files, st
+        if probe.value('use_late') != 'true':
+            return
+        st.late = True
+        for n, v in self.dopts.get('late', {}).items():
+            if n in BUILTINS and n not in cmdline:
+                st.user['late:' + n] = v
+        for name, spec in self.files['late'].items():
+            st.created_default[key('late', name)] = self.dopts.get('late', {}).get(name, spec.default)
+            st.applied['late'][name] = copy.deepcopy(spec)
+        for k, v in cmdline.items():
+            if k.startswith('late:'):
+                st.user[k] = v
 
     def _apply_files(self, st: State, initial: bool = False, cmdline: T.Mapping[str, str] = {}) -> None:
         """update_project_options semantics for every (sub)project; initial: first configuration (default_options apply;
@@ -183,6 +211,8 @@ class Model:
             ks += [key(sub, n) for n in self.st.applied[sub]]
         for b in BUILTINS:
             ks += [b, 'sub:' + b]
+        if self.st.late:
+            ks += [key('late', n) for n in self.st.applied['late']] + ['late:' + b for b in BUILTINS]
         return ks
 
     def value(self, k: str) -> str:
@@ -212,6 +242,7 @@ class Model:
             return False
         st.user.update(assign)
         st.record = dict(assign)
+        self._maybe_init_late(st, st.record)
         st.configured = True
         self.st = st
         return True
@@ -264,6 +295,7 @@ class Model:
         for k, v in assign.items():
             st.user[k] = v
             st.record[k] = v
+        self._maybe_init_late(st, st.record)
         self.st = st
         return True
 
@@ -281,13 +313,15 @@ class Model:
         if not ok:
             # emptied directory, recorded command line intact (what the code comment in msetup promises)
             st.configured = False
-            st.applied = {'': {}, 'sub': {}}
+            st.applied = {'': {}, 'sub': {}, 'late': {}}
+            st.late = False
             st.created_default = {}
             st.user = {}
             st.record = old_record      # the restored file is the old one: options given to the failed --wipe are not recorded
             self.st = st
             return False
         st.user.update(record)
+        self._maybe_init_late(st, record)
         st.configured = True
         self.st = st
         return True
